@@ -91,7 +91,7 @@ int disasm_86000(
           immediate = memory->read8(address + 1);
           offset = memory->read8(address + 2);
 
-          snprintf(instruction, length, "%s @r%d, #0x%02x, %04x (offset=%d)",
+          snprintf(instruction, length, "%s @r%d, #0x%02x, 0x%04x (offset=%d)",
             table_86000[n].name,
             reg,
             immediate,
